@@ -89,6 +89,10 @@ func c18PropBase(race bool) *pProp {
 			}
 			for k := 0; k < p.extra; k++ {
 				nc := 2 + r.intn(3)
+				// a program that keeps its options in package-level variables: all
+				// clients of such a schedule apply the same Option values
+				sharedOpts := r.chance(1, 3)
+				sharedEntryEmpty := sharedOpts && r.chance(1, 2)
 				var clients [][]parsersim.Call
 				for c := 0; c < nc; c++ {
 					var calls []parsersim.Call
@@ -96,6 +100,10 @@ func c18PropBase(race bool) *pProp {
 						o := drawOpts(r, gp, 35, 15)
 						if r.chance(1, 4) {
 							o.MaxExpr = uint64(1 + r.intn(60))
+						}
+						o.SharedOptions = sharedOpts
+						if sharedEntryEmpty && o.Entrypoint == "" {
+							o.EntryEmpty = true
 						}
 						if gp.Has["InitState"] && r.chance(1, 3) {
 							o.InitState = [][2]string{{"k0", "init"}, {"c1", "C:i1"}}
